@@ -570,7 +570,9 @@ func (u *Unit) havocLoop(st *State, fr *Frame, li *loopInfo) {
 	for a := range eff.cells {
 		cells = append(cells, a)
 	}
-	sort.Slice(cells, func(i, j int) bool { return cells[i].Pos() < cells[j].Pos() || (cells[i].Pos() == cells[j].Pos() && cells[i].Name() < cells[j].Name()) })
+	sort.Slice(cells, func(i, j int) bool {
+		return cells[i].Pos() < cells[j].Pos() || (cells[i].Pos() == cells[j].Pos() && cells[i].Name() < cells[j].Name())
+	})
 	for _, a := range cells {
 		if _, ok := fr.Cells[a]; ok {
 			fr.Cells[a] = u.FreshOfType(st, "lh_"+a.Comment, derefType(a.Type()))
